@@ -60,6 +60,7 @@ pub fn lookup(name: &str) -> Option<(&'static str, ScenFn)> {
         "xfer" => (XFER_RULE, xfer as ScenFn),
         "amp" => (AMP_RULE, amp as ScenFn),
         "close" => (CLOSE_RULE, close as ScenFn),
+        "determ" => (DETERM_RULE, determ as ScenFn),
         _ => return None,
     })
 }
@@ -135,11 +136,28 @@ pub fn random_net(rng: &mut Rng) -> NetCfg {
 
 pub const XFER_RULE: &str = "one execution = random transport configs for both peers (windows, stream limits 0/1/.., controllers NewReno/Cubic/BBR, MTU discovery on/off/bounds, keep-alive, GSO), random network (latency/jitter/loss<=30% with at most 3 consecutive drops per direction/duplication/corruption/truncation/replay/path MTU/CE), event-driven workloads on both sides (streams bi/uni of 0..200KB in chunks 1..70000, ordered and unordered reads with random max_length, datagrams), driver with optional spurious calls and late timers; oracles: C01 content/prefix/disjointness/fin, C02 completion (no wedge), C04 frames processed <= frames sent, C07 amplification, C12 in-flight returns to zero, C13 datagram sizes, C08 event uniqueness; non-trivial = handshake completed, >= 1 fault injected and >= 1 KB transferred";
 
-pub fn xfer(seed: u64, out: &mut Outcome) {
+/// Driver-schedule variant of an execution (C20): extra shift of the time base, forced spurious-call rate.
+#[derive(Clone, Copy, Default)]
+pub struct Variant {
+    pub shift_s: u64,
+    pub spurious: Option<u64>,
+    pub no_late: bool,
+}
+
+pub struct XferRun {
+    pub sim: Sim,
+    pub w: Workload,
+    pub end: RunEnd,
+    pub cch: usize,
+    pub checks: u64,
+}
+
+pub fn xfer_core(seed: u64, v: Variant) -> XferRun {
     let mut rng = Rng::new(seed ^ 0x51ab);
     let (tc, lim_c) = random_transport(&mut rng);
     let (ts, lim_s) = random_transport(&mut rng);
     let (mut sim, ccfg) = default_pair(seed, tc, ts);
+    sim.base += Duration::from_secs(v.shift_s);
     sim.net = random_net(&mut rng);
     // `initial_mtu` above the real path MTU is a documented misconfiguration, not a supported configuration
     sim.net.path_mtu = sim.net.path_mtu.max(1400);
@@ -151,6 +169,12 @@ pub fn xfer(seed: u64, out: &mut Outcome) {
     }
     if rng.chance(1, 4) {
         sim.drv.late_ns = *rng.pick(&[100_000u64, 5_000_000]);
+    }
+    if let Some(sp) = v.spurious {
+        sim.drv.spurious_permille = sp;
+    }
+    if v.no_late {
+        sim.drv.late_ns = 0;
     }
     if rng.chance(1, 5) {
         sim.nodes[SERVER].policy = IncomingPolicy::Retry;
@@ -202,6 +226,11 @@ pub fn xfer(seed: u64, out: &mut Outcome) {
         }
         w.complete() && w.ch[SERVER].is_some()
     });
+    XferRun { sim, w, end, cch, checks }
+}
+
+pub fn xfer(seed: u64, out: &mut Outcome) {
+    let XferRun { mut sim, mut w, end, cch, checks } = xfer_core(seed, Variant::default());
     let connected = sim.nodes[CLIENT].conns[&cch].obs.connected;
     let mut require_complete = connected;
     if w.ch[SERVER].is_none() {
@@ -667,4 +696,56 @@ pub fn close(seed: u64, out: &mut Outcome) {
         out.fails.push(format!("{f} seed={seed}"));
     }
     out.take_trace(seed, &mut sim);
+}
+
+pub const DETERM_RULE: &str = "one execution = the transfer scenario of seed s run four times in one process: (a) reference with a driver that makes no spurious calls, (b) identical replay, (c) time base shifted by 1000 s, (d) spurious handle_timeout / poll_timeout calls inserted at 30% of the opportunities; the full observable traces (every Transmit: instant offset, size, segment size, destination; every application event; every endpoint event; every serviced timeout and the next deadline it leaves) must be identical (a)=(b)=(c)=(d). Ed25519 certificates and seeded CID generators / rng_seed make datagram sizes independent of TLS randomness. Also: servicing timeouts at one instant settles within 2*16+9 rounds; no output after drained. Non-trivial = reference trace has > 50 records and >= 1 fault";
+
+fn trace_key(t: &[Rec]) -> Vec<String> {
+    t.iter().map(|r| format!("{r:?}")).collect()
+}
+
+pub fn determ(seed: u64, out: &mut Outcome) {
+    let base = Variant { shift_s: 0, spurious: Some(0), no_late: true };
+    let a = xfer_core(seed, base);
+    let ta = trace_key(&a.sim.trace);
+    let variants: [(&str, Variant); 3] = [
+        ("determinism-replay-differs", base),
+        ("shift-equivariance-broken", Variant { shift_s: 1000, ..base }),
+        ("spurious-calls-change-behaviour", Variant { spurious: Some(300), ..base }),
+    ];
+    for (key, v) in variants {
+        let b = xfer_core(seed, v);
+        let tb = trace_key(&b.sim.trace);
+        if ta != tb {
+            let i = ta.iter().zip(tb.iter()).position(|(x, y)| x != y).unwrap_or(ta.len().min(tb.len()));
+            out.fails.push(format!(
+                "key={key} seed={seed} traces diverge at record {i} of {}/{}: reference {:?} vs variant {:?}",
+                ta.len(),
+                tb.len(),
+                ta.get(i),
+                tb.get(i)
+            ));
+        }
+        for f in &b.sim.fails {
+            if f.contains("timeout-settle") || f.contains("output-after-drained") {
+                out.fails.push(format!("{f} seed={seed}"));
+            }
+        }
+        out.evaluations += b.sim.steps;
+    }
+    for f in &a.sim.fails {
+        if f.contains("timeout-settle") || f.contains("output-after-drained") {
+            out.fails.push(format!("{f} seed={seed}"));
+        }
+    }
+    out.runs += 1;
+    out.evaluations += a.sim.steps;
+    let faults: u64 = a.sim.faults.values().sum();
+    if ta.len() > 50 && faults > 0 {
+        out.nontrivial += 1;
+    }
+    out.count("trace-records-compared", 3 * ta.len() as u64);
+    if out.samples.len() < 2 {
+        out.samples.push(format!("seed {seed}: reference trace {} records, e.g. {:?}", ta.len(), ta.iter().skip(ta.len() / 2).take(4).collect::<Vec<_>>()));
+    }
 }
